@@ -408,3 +408,11 @@ def weak_measure(theta, phi, strength):
     pp, pm = (I2 + ns) / 2, (I2 - ns) / 2
     a, b = math.sqrt((1 + strength) / 2), math.sqrt((1 - strength) / 2)
     return [a * pp + b * pm, b * pp + a * pm]
+
+
+def seeded_unitary(seed, dim):
+    """Haar-random unitary derived from an integer (so that program descriptions stay small)"""
+    rng = np.random.default_rng([int(seed), int(dim), 79])
+    z = (rng.standard_normal((dim, dim)) + 1j * rng.standard_normal((dim, dim))) / math.sqrt(2)
+    q, r = np.linalg.qr(z)
+    return q * (np.diag(r) / np.abs(np.diag(r)))
